@@ -105,11 +105,16 @@ def check_layout(c):
     N = c['N']
     single = any(sum(1 for p in pts if p[k] == v) == 1 for k in range(d) for v in range(shape[k]))
     dup = len(set(pts)) < m
-    perms = sorted(set(itertools.permutations(range(m))))
+    if c.get('perm_mode') == 'few':       # large sample sets: identity, reversal, rotation, stride permutation
+        ident = tuple(range(m))
+        stride = tuple(sorted(range(m), key=lambda j: ((j * 7) % m, j)))
+        perms = [ident, ident[::-1], ident[7 % m:] + ident[:7 % m], stride]
+    else:
+        perms = sorted(set(itertools.permutations(range(m))))
     for (r0, lamb, wk) in c['configs']:
         Y0 = space.tt(shape, [1] + [r0] * (d - 1) + [1], 'gen', seed, tag=41)
-        w = None if not wk else np.array([1.0, 0.5, 2.0, 0.25, 4.0, 1.0][:m])
-        cfg = dict(shape=shape, points=c['points'], N=N, configs=[[r0, lamb, wk]], seed=seed)
+        w = None if not wk else np.array([(1.0, 0.5, 2.0, 0.25, 4.0, 1.0)[j % 6] for j in range(m)])
+        cfg = dict(shape=shape, points=c['points'], N=N, configs=[[r0, lamb, wk]], seed=seed, perm_mode=c.get('perm_mode'))
         tags = ['single-sample-slice' if single else 'multi', 'r0=%d' % r0]
         res.ev()
         snap = Snap()
@@ -390,6 +395,13 @@ def strata(tier, seed):
                 lay.append(dict(shape=shape, points=ms, N=3, configs=cfgs_full, perms=True, seed=seed))
                 if cfgs_rest:
                     lay.append(dict(shape=shape, points=ms, N=2, configs=cfgs_rest, perms=False, seed=seed))
+    for shape in ([4, 3, 5], [6, 7], [3, 2, 2, 3]):
+        g = [list(p) for p in space.all_indices(shape)]
+        sets = [g, g + g[::7], [p for j, p in enumerate(g) if j % 3 != 1] + [g[1]]]
+        for pts in sets:
+            cov = all(len({p[k] for p in pts}) == shape[k] for k in range(len(shape)))
+            if cov:
+                lay.append(dict(shape=shape, points=sorted(pts), N=3, configs=[[2, 1e-3, 0], [3, 0.1, 1]], perms=True, perm_mode='few', seed=seed))
     yield Stratum('als-layouts', lay, 'layout', size=len(lay), chunk=4,
                   bounds={'grids': [p[0] for p in plan], 'multiset size': [p[1] for p in plan], 'sweeps': 3,
                           'orderings': 'all distinct permutations'})
